@@ -1235,12 +1235,9 @@ class System:
                         else:
                             eff += [100 * p / (p + l)]
                         w = list(set(df[filt]["Warnings"].tolist()))
-                        if len(w) > 1:
-                            if "" in w:
-                                w.remove("")
-                            warn += [", ".join(w)]
-                        else:
-                            warn += [""]
+                        if "" in w:
+                            w.remove("")
+                        warn += [", ".join(w)]
                 if phase_list != [""]:
                     res["Phase"] = phases
                 res["Rail"] = rail
